@@ -1,8 +1,12 @@
 import Genq.Props.C04
 open Genq.Vars
 open Genq
+open Genq.Codec
 #print axioms C04_keys_subset
 #print axioms C04_omitted_iff
 #print axioms C04_no_omitempty_all_sent
 #print axioms C04_one_request
 #print axioms C04_marshal_template_tie
+#print axioms C04_field_omitted_iff_empty_model
+#print axioms C04_unmarked_field_always_sent_model
+#print axioms C04_encoding_cases_model
